@@ -470,10 +470,20 @@ def _pm(n, p, b):
     if isinstance(p, ast.BinOp) and isinstance(p.op, (ast.Add, ast.Mult)):
         if not (isinstance(n, ast.BinOp) and type(n.op) is type(p.op)):
             return False
+        # (1) operand-wise, in either order (lets a wildcard take a whole sub-sum / sub-product)
+        for a_, b_ in ((n.left, n.right), (n.right, n.left)):
+            trial = dict(b)
+            if _pm(a_, p.left, trial) and _pm(b_, p.right, trial):
+                b.clear()
+                b.update(trial)
+                return True
+        # (2) flattened, up to re-ordering; surplus operands are absorbed by wildcard operands of the pattern
         ps, ns = _flat(p, type(p.op)), _flat(n, type(p.op))
-        if len(ps) != len(ns):
-            return False
-        return _perm(ns, ps, b)
+        if len(ps) == len(ns):
+            return _perm(ns, ps, b)
+        if len(ps) < len(ns):
+            return _perm_groups(ns, ps, b, type(p.op))
+        return False
     if type(n) is not type(p):
         return False
     if isinstance(p, ast.Constant):
@@ -552,6 +562,62 @@ def _perm(ns, ps, b):
             b.update(trial)
             return True
     return False
+
+
+def _is_wild(p):
+    return isinstance(p, ast.Name) and p.id.startswith("_")
+
+
+def _perm_groups(ns, ps, b, op):
+    """Match pattern operands ps against node operands ns (len(ns) > len(ps)): every non-wildcard pattern operand takes one
+    node operand; the wildcard operands share the remaining ones (each at least one, kept in source order)."""
+    fixed = [q for q in ps if not _is_wild(q)]
+    wild = [q for q in ps if _is_wild(q)]
+    if not wild:
+        return False
+
+    def rebuild(group):
+        out = group[0]
+        for g in group[1:]:
+            out = ast.BinOp(left=out, op=op(), right=g)
+        return out
+
+    def assign_fixed(rest_ns, fs, trial):
+        if not fs:
+            return assign_wild(rest_ns, wild, trial)
+        for i, n_ in enumerate(rest_ns):
+            t2 = dict(trial)
+            if _pm(n_, fs[0], t2):
+                r = assign_fixed(rest_ns[:i] + rest_ns[i + 1:], fs[1:], t2)
+                if r is not None:
+                    return r
+        return None
+
+    def assign_wild(rest_ns, ws, trial):
+        if len(ws) == 1:
+            if not rest_ns:
+                return None
+            t2 = dict(trial)
+            return t2 if _pm(rebuild(rest_ns), ws[0], t2) else None
+        # first wildcard takes any non-empty proper subset (by index mask, source order)
+        m = len(rest_ns)
+        for mask in range(1, 2 ** m - 1):
+            grp = [rest_ns[i] for i in range(m) if mask >> i & 1]
+            oth = [rest_ns[i] for i in range(m) if not mask >> i & 1]
+            if len(oth) < len(ws) - 1:
+                continue
+            t2 = dict(trial)
+            if _pm(rebuild(grp), ws[0], t2):
+                r = assign_wild(oth, ws[1:], t2)
+                if r is not None:
+                    return r
+        return None
+    r = assign_fixed(list(ns), fixed, dict(b))
+    if r is None:
+        return False
+    b.clear()
+    b.update(r)
+    return True
 
 
 def find_all(node, pat):
